@@ -169,6 +169,8 @@ func (c12) Gen(rng *rand.Rand, tier string, k int) *Case {
 		// local midnights in a daylight-saving zone (the file-system target stores dates without a
 		// zone, so it is left out: its round trip turns them into UTC days)
 		c.Param[1] = 1 + rng.Intn(2)
+	} else if rng.Intn(6) == 0 {
+		c.Param[1] = 3 // turn of the year (whole UTC days: every target implementation)
 	}
 	if rng.Intn(2) == 0 {
 		c.Mode = "explicit"
@@ -306,6 +308,9 @@ func syncBase(c *Case) time.Time {
 		if loc, err := time.LoadLocation("Europe/Berlin"); err == nil {
 			return time.Date(2021, 3, 25, 0, 0, 0, 0, loc) // 2021-03-28 is day 3
 		}
+	}
+	if mode == 3 {
+		return time.Date(2003, 12, 27, 0, 0, 0, 0, time.UTC) // the data straddles the turn of the year
 	}
 	return base2000
 }
